@@ -391,3 +391,33 @@ def r178(ctx) -> None:
     if good is None:
         R.undecided(f, f.node, 'dict Message.copy: recent = the parameter',
                     'constructor call not recognised')
+    # maildir sibling: new/ vs cur/ of the copy is decided by `recent` alone
+    mc = ctx.proj.cls(MAILDIR, 'MailboxData').own_method('copy')
+    cfg = cfg_of(mc)
+    sets = cfg.find(lambda n: any(call_name(c) == 'set_subdir'
+                                  for c in n.calls()))
+    adds = cfg.find(lambda n: any(call_name(c) == 'add'
+                                  and 'maildir' in txt(c.func.value)
+                                  for c in n.calls()))
+    okm = bool(sets) and bool(adds)
+    for a in adds:
+        if not cfg.dominated_by(a, sets, labels=NORMAL):
+            okm = False
+    vals = []
+    for n in sets:
+        for c in n.calls():
+            if call_name(c) == 'set_subdir' and c.args:
+                vals.append(c.args[0])
+    both = any(isinstance(v, ast.IfExp) and guard_atoms(v.test) in (
+        [('recent', True)], [('recent', False)]) and
+        {const_value(v.body)[1], const_value(v.orelse)[1]} == {'new', 'cur'}
+        for v in vals) or {const_value(v)[1] for v in vals} >= {'new',
+                                                                'cur'}
+    R.check(okm and both, mc, mc.node,
+            'maildir copy: the copy goes to new/ or cur/ by `recent` alone, '
+            'on every path',
+            'the copy\'s subdirectory is not set on every path (or not to '
+            'both values): a non-recent copy of a message that still sits '
+            'in new/ is written to new/ again, so the next read-write '
+            'SELECT claims it — \\Recent is carried over by COPY and '
+            'announced to two sessions')
